@@ -6,7 +6,8 @@ import Pi2.MM.SliceVerifyEx
 # C17 — Metamath databases survive printing, re-parsing and slicing
 
 Models: `Pi2/MM/Ast.lean` (lark grammar + `ASTTransformer`, `Encoder`) and `Pi2/MM/Slice.lean`
-(`slice_database`, tree after the `fix:` commits F14/F15), both at token level.
+(`slice_database`, tree after the `fix:` commits F14/F15 and the two repairs "keep a top-level $d statement at its
+place in a slice", "keep an essential hypothesis stated outside a block …"), both at token level.
 
 * `print_parse`: the printer is a left inverse of the parser on *every* token sequence the parser accepts
   (not only well-formed Metamath), hence `parse_print_parse`: printing a parsed database and parsing the
@@ -16,15 +17,17 @@ Models: `Pi2/MM/Ast.lean` (lark grammar + `ASTTransformer`, `Encoder`) and `Pi2/
   typecodes of the floating hypotheses it keeps — and every metavariable its statements use
   (`slice_declares`); (c) contains the statement of every label the compressed proof cites
   (`slice_labels_present`); (d) keeps the floating hypotheses in their original order
-  (`slice_floats_in_order`, for databases whose floating labels are not reused).
-* `slice_verifies` (the property itself): for a well-formed database (`MM.WellFormedDb`: unique labels, no `$e` outside
-  a block, the AST consistent with the `$v` declarations, top-level `$d` before the assertions they concern), if the
+  (`slice_floats_in_order`, for databases whose floating labels are not reused); (e) keeps every top-level `$d`
+  statement at its place among the kept statements, restricted to the metavariables of the slice
+  (`slice_keeps_disjointness`).
+* `slice_verifies` (the property itself): for a well-formed database (`MM.WellFormedDb`: unique labels, `)` not a
+  label, the AST consistent with the `$v` declarations, the slicer's default constants not variables), if the
   reference Metamath verifier `MM.verifyLemma` (`Pi2/MM/Verify.lean`, validated against the independent Python verifier
   by `vlib/validate_verify.py`) accepts the proof of a lemma in the database, it accepts it in the lemma's slice.
-  No hypothesis on `syntax_dependencies` is needed.  `slice_verifies_needs_disjFirst`: without the hypothesis on
-  top-level `$d` statements the property is FALSE (a `$d x y` after an axiom over `x`, `y`: the slicer moves it to the
-  front of the slice and the axiom gains a disjoint-variable condition).  The check (`vlib/props/c17.py`) still runs
-  an independent verifier on every generated slice.
+  No hypothesis on `syntax_dependencies` is needed.  While this theorem was being proved two defects of the slicer
+  were found (top-level `$d` moved in front of earlier assertions; top-level `$e` dropped) and repaired upstream; the
+  two former counterexamples are kept as regression facts (`cex_disj_now_verifies`, `cex_top_ess_now_verifies`).
+  The check (`vlib/props/c17.py`) still runs an independent verifier on every generated slice.
 -/
 namespace C17
 open MM
@@ -59,14 +62,23 @@ theorem slice_declares {db : MDb} {deps : List (String × List String)} {incl ex
       (stmtsMvs rest ≠ [] → ∃ vs rest', rest = .var vs :: rest' ∧ ∀ s ∈ rest, ∀ v ∈ stmtMvs s, v ∈ vs) :=
   MM.sliceDatabase_declares h hmem
 
-/-- the statement of every label between the parentheses of the compressed proof is in the slice -/
-theorem slice_labels_present {cut : List (String × MStmt)} {disjoints : List (String × String)}
-    {deps : List (String × List String)} {label : String} {terms : List MTerm} {proof : List String}
-    {ess : List MStmt} {sl : MDb} {labels : List String}
-    (h : supportingDb cut disjoints deps label terms proof ess = some sl)
-    (hl : proofLabels proof = some labels) :
-    ∀ l ∈ labels, ∃ st, cut.lookup l = some st ∧ st ∈ sl :=
-  MM.slice_labels_present h hl
+/-- the statement of every label between the parentheses of the compressed proof is in the slice (`cut`: the ordered
+dictionary `cut_antecedents` the slice was cut from) -/
+theorem slice_labels_present {db : MDb} {deps : List (String × List String)} {incl excl : List String}
+    {out : List (String × MDb)} {l : String} {sl : MDb}
+    (h : sliceDatabase db deps incl excl = some out) (hmem : (l, sl) ∈ out) :
+    ∃ cut ants ts pf labels, supportingDb cut deps l ts pf ants = some sl ∧ proofLabels pf = some labels ∧
+      ∀ l' ∈ labels, ∃ st, cut.lookup (some l') = some st ∧ st ∈ sl := by
+  obtain ⟨cut, ants, ts, pf, _, hcl, hsup⟩ := MM.cut_labelled h hmem
+  obtain ⟨labels, _, _, hl, _⟩ := MM.slice_shape hsup
+  exact ⟨cut, ants, ts, pf, labels, hsup, hl, MM.slice_labels_present hcl hsup hl⟩
+
+/-- an essential hypothesis stated outside a block is in every slice cut after it -/
+theorem slice_keeps_top_ess {cut : Cut} {deps : List (String × List String)} {label : String} {terms : List MTerm}
+    {proof : List String} {ess : List MStmt} {sl : MDb} {l : String} {ts : List MTerm}
+    (h : supportingDb cut deps label terms proof ess = some sl) (hm : (some l, MStmt.ess l ts) ∈ cut) :
+    MStmt.ess l ts ∈ sl :=
+  MM.slice_keeps_top_ess h hm
 
 /-- floating hypotheses keep their database order (labels of `$f` statements not used before) -/
 theorem slice_floats_in_order {db : MDb} {deps : List (String × List String)} {incl excl : List String}
@@ -76,27 +88,31 @@ theorem slice_floats_in_order {db : MDb} {deps : List (String × List String)} {
     (topFloats sl).Sublist (topFloats db) :=
   MM.slice_floats_in_order (floatLabelsFresh_of_nodup hlabels) h hmem
 
-/-- disjointness: every pair of the global `$d` statements seen so far whose two variables the slice declares (`mvs`: the
-variables of its `$v` statement) is stated in the slice, so a `$d` side condition the lemma's proof relies on is still there -/
-theorem slice_keeps_disjointness {cut : List (String × MStmt)} {disjoints : List (String × String)}
-    {deps : List (String × List String)} {label : String} {terms : List MTerm} {proof : List String}
-    {ess : List MStmt} {sl : MDb}
-    (h : supportingDb cut disjoints deps label terms proof ess = some sl) :
-    ∃ mvs : List String, (mvs ≠ [] → sl[1]? = some (MStmt.var (sortDedup mvs))) ∧
-      ∀ a b, (a, b) ∈ disjoints → a ∈ mvs → b ∈ mvs → MStmt.disj [a, b] ∈ sl := by
+/-- disjointness: a slice is its `$c` and `$v` statements, then the ordered dictionary `cut_antecedents` filtered by
+`keepEntry`, then the lemma's block; `keepEntry` turns a `$d` statement into its restriction to the metavariables
+`mvs` of the slice if more than one variable remains (and drops it otherwise).  So every top-level `$d` statement seen
+so far that still says something about the slice's variables is in the slice, restricted, at its original place
+among the kept statements -/
+theorem slice_keeps_disjointness {cut : Cut} {deps : List (String × List String)} {label : String}
+    {terms : List MTerm} {proof : List String} {ess : List MStmt} {sl : MDb}
+    (h : supportingDb cut deps label terms proof ess = some sl) :
+    ∃ (needed mvs cs : List String),
+      sl = .const cs :: (varStmtOf mvs ++ cut.filterMap (keepEntry needed mvs) ++
+        [.block (ess ++ [.prov label terms proof])]) ∧
+      (∀ k vs, keepEntry needed mvs (k, .disj vs) =
+        if 1 < (vs.filter fun v => mvs.contains v).length then some (.disj (vs.filter fun v => mvs.contains v))
+        else none) ∧
+      ∀ k vs, (k, MStmt.disj vs) ∈ cut → 1 < (vs.filter fun v => mvs.contains v).length →
+        MStmt.disj (vs.filter fun v => mvs.contains v) ∈ sl := by
   obtain ⟨labels, neededStmts, consts, _, _, _, hsl⟩ := MM.slice_shape h
-  refine ⟨stmtsMvs (.prov label terms proof :: (ess ++ neededStmts)), ?_, ?_⟩
-  · intro hne
-    rw [hsl]
-    simp [MM.varStmtOf, hne]
-  · intro a b hab ha hb
-    rw [hsl]
-    apply List.mem_cons_of_mem
-    apply List.mem_append_left
-    apply List.mem_append_left
-    apply List.mem_append_right
-    simp only [MM.disjStmtsOf, List.mem_map, List.mem_filter]
-    exact ⟨(a, b), ⟨hab, by simp [ha, hb]⟩, rfl⟩
+  refine ⟨neededOf cut deps labels, stmtsMvs (.prov label terms proof :: (ess ++ neededStmts)), _, hsl,
+    fun k vs => keepEntry_disj _ _ k vs, ?_⟩
+  intro k vs hm hlen
+  rw [hsl]
+  apply List.mem_cons_of_mem
+  apply List.mem_append_left
+  apply List.mem_append_right
+  exact mem_keptOf.2 ⟨(k, .disj vs), hm, by rw [keepEntry_disj, if_pos hlen]⟩
 
 /-- **the slice is self-contained**: the lemma's proof, which verifies against the database, verifies against the slice -/
 theorem slice_verifies {db : MDb} {deps : List (String × List String)} {incl excl : List String}
@@ -124,17 +140,30 @@ theorem slice_verifies_nonvacuous :
     verifyLemma SliceEx.exDb "th2" = true ∧ verifyLemma SliceEx.exSl2 "th2" = true :=
   ⟨SliceEx.exDb_wf, SliceEx.exDb_slices, SliceEx.exDb_th2, SliceEx.exSl2_verifies⟩
 
-/-- the hypothesis `WellFormedDb.disjFirst` cannot be dropped: a database meeting all the other hypotheses whose
-lemma verifies and whose slice does not -/
-theorem slice_verifies_needs_disjFirst : ∃ (db : MDb) (l : String) (sl : MDb),
-    (allLabelsL db).Nodup ∧ ")" ∉ allLabelsL db ∧ (∀ s ∈ db, isEssStmt s = false) ∧
-    (∀ x ∈ flatL db, leafOk (dbVars db) x = true) ∧ (∀ c ∈ defaultConstants, c ∉ dbVars db) ∧
-    sliceDatabase db [] [l] [] = some [(l, sl)] ∧ verifyDb db = true ∧ verifyLemma db l = true ∧
-    verifyLemma sl l = false :=
-  SliceEx.slice_verifies_needs_disjFirst
+/-- regression fact for the repaired defect "top-level `$d` moved to the front of the slice": the database `cexDb`
+(`ax1 $a |- ( foo x y ) $.  $d x y $.  th $p |- ( foo z z ) $= ( ax1 ) AAB $.`) is well-formed, its lemma verifies,
+the slicer keeps the `$d` behind `ax1`, and the slice verifies (the slice of the old slicer did not) -/
+theorem cex_disj_now_verifies :
+    WellFormedDb SliceEx.cexDb ∧ verifyLemma SliceEx.cexDb "th" = true ∧
+    sliceDatabase SliceEx.cexDb [] ["th"] [] = some [("th", SliceEx.cexSl)] ∧
+    verifyLemma SliceEx.cexSl "th" = true ∧ verifyLemma SliceEx.cexSlOld "th" = false :=
+  ⟨SliceEx.cexDb_wf, SliceEx.cexDb_verifies.1, SliceEx.cexDb_sliced, SliceEx.cex_disj_now_verifies,
+    SliceEx.cex_disj_old_slice_fails⟩
+
+/-- regression fact for the repaired defect "top-level `$e` dropped": `h $e |- ( foo x x ) $.` outside any block,
+`th $p |- ( foo x x ) $= ( ) B $.` -/
+theorem cex_top_ess_now_verifies :
+    WellFormedDb SliceEx.cexEssDb ∧ verifyLemma SliceEx.cexEssDb "th" = true ∧
+    sliceDatabase SliceEx.cexEssDb [] ["th"] [] = some [("th", SliceEx.cexEssSl)] ∧
+    verifyLemma SliceEx.cexEssSl "th" = true ∧ verifyLemma SliceEx.cexEssSlOld "th" = false :=
+  ⟨SliceEx.cexEssDb_wf, SliceEx.cexEssDb_verifies.1, SliceEx.cexEssDb_sliced, SliceEx.cex_top_ess_now_verifies,
+    SliceEx.cex_top_ess_old_slice_fails⟩
 
 end C17
 
 #print axioms C17.slice_verifies
 #print axioms C17.slice_verifies_nonvacuous
-#print axioms C17.slice_verifies_needs_disjFirst
+#print axioms C17.slice_keeps_disjointness
+#print axioms C17.slice_labels_present
+#print axioms C17.cex_disj_now_verifies
+#print axioms C17.cex_top_ess_now_verifies
